@@ -214,10 +214,87 @@ func (e *Engine) tryReplay(prop string, o *Oblig, rep map[string]interface{}, re
 			return true
 		}
 	}
+	// second line of search: the demonstrations kept with the seeded changes of this property
+	// (tests written from the property text alone; each passes on the unchanged tree)
+	demos, _ := filepath.Glob("/verif/seeded/" + prop + "-*/demo_test.go")
+	if len(demos) > 0 {
+		ran = true
+		if demoCache == nil {
+			// the demonstrations do not depend on the obligation: run them once per run
+			demoCache = map[string]interface{}{}
+			for _, d := range demos {
+				if e.runDemo(prop, d, demoCache, work) {
+					break
+				}
+			}
+		}
+		if _, ok := demoCache["failing_input"]; ok {
+			for k, v := range demoCache {
+				rep[k] = v
+			}
+			return true
+		}
+	}
 	if !ran {
 		rep["replay"] = "no executable oracle for this property"
 	}
 	return false
+}
+
+var demoCache map[string]interface{}
+
+var demoTestRe = regexp.MustCompile(`(?m)^func (Test[A-Za-z0-9_]+)\(`)
+
+// runDemo injects a kept demonstration test into the scratch copy and runs it; a failing
+// test is a concrete failing input on the real code.
+func (e *Engine) runDemo(prop, demo string, rep map[string]interface{}, work string) bool {
+	src, err := os.ReadFile(demo)
+	if err != nil {
+		return false
+	}
+	first := strings.SplitN(string(src), "\n", 2)[0]
+	dir := strings.TrimSpace(strings.TrimPrefix(strings.TrimPrefix(strings.TrimSpace(first), "//"), " package-dir:"))
+	dir = strings.TrimSpace(strings.TrimPrefix(dir, "package-dir:"))
+	if st, err := os.Stat(filepath.Join(e.repoDir, dir)); err != nil || !st.IsDir() {
+		return false
+	}
+	var names []string
+	for _, m := range demoTestRe.FindAllStringSubmatch(string(src), -1) {
+		names = append(names, m[1])
+	}
+	if len(names) == 0 {
+		return false
+	}
+	ov := map[string]interface{}{"Replace": map[string]string{filepath.Join(e.repoDir, dir, "zz_seed_demo_test.go"): demo}}
+	ovb, _ := json.Marshal(ov)
+	ovFile := filepath.Join(work, "overlay_demo.json")
+	os.WriteFile(ovFile, ovb, 0o644)
+	cmd := exec.Command("bash", "-c", fmt.Sprintf("ulimit -v 8000000; cd %s && go test -overlay %s -vet=off -count=1 -timeout 120s -run '^(%s)$' ./%s 2>&1", e.repoDir, ovFile, strings.Join(names, "|"), dir))
+	cmd.Env = append(os.Environ(), "GOFLAGS=-mod=mod", "GOPROXY=off", "GOSUMDB=off", "GOTOOLCHAIN=local")
+	out, _ := cmd.CombinedOutput()
+	text := string(out)
+	if !strings.Contains(text, "--- FAIL") && !strings.Contains(text, "panic:") {
+		return false
+	}
+	if strings.Contains(text, "[build failed]") || strings.Contains(text, "[setup failed]") {
+		return false
+	}
+	// the first lines of the failure describe the input
+	var keep []string
+	for _, l := range strings.Split(text, "\n") {
+		t := strings.TrimSpace(l)
+		if t == "" || strings.HasPrefix(t, "=== ") {
+			continue
+		}
+		keep = append(keep, t)
+		if len(keep) >= 6 {
+			break
+		}
+	}
+	rep["failing_input"] = "test " + strings.Join(names, ",") + " of " + strings.TrimPrefix(demo, "/verif/") + " fails on this tree: " + trunc2(strings.Join(keep, " | "), 900)
+	rep["oracle_output"] = trunc2(text, 4000)
+	rep["replay"] = "a kept demonstration test (written from the property text alone; it passes on the unchanged tree) fails on the real code"
+	return true
 }
 
 // runOracle injects the oracle test into the scratch copy with -overlay and runs it.
